@@ -28,6 +28,7 @@ Inductive xact :=
 | XPlay (b : nat) (c : clockid)               (* Routine(body b).play(c, 0) *)
 | XFork (b : nat)                             (* Routine(body b).play(None, 0): the current routine's clock *)
 | XSetTempo (i : nat) (v : Q)                 (* tempoclocks[i].tempo = v *)
+| XSetBeats (i : nat) (v : Q)                 (* tempoclocks[i].beats = v  (the documented setter) *)
 | XSeed (s : Z)                               (* rout.rand_seed = s *)
 | XDraw (req : Z)                             (* log(request number req evaluated: bi.rand(n), bi.rrand(a, b), bi.choice(l)...) *)
 | XWait (c : nat)                             (* yield from conds[c].wait() *)
@@ -144,6 +145,23 @@ Section Exec.
   Definition x_tempo (st : xstate) (rid k : nat) (T : Q) (i : nat) (v : Q) : xstate * bool :=
     let r := nrt_set_tempo rt repaired (x_n st) (Some (rid, k)) T i v in (set_n st (fst r), snd r).
 
+  (* TempoClock.beats setter at logical time T: the clock counts v at T from now on (tempo unchanged); the non-real-time
+     scheduler re-times the clock's pending tasks (they keep their beats), the real-time queue holds beats: nothing moves.
+     Logged as EvTempo with index 1000 + i.  A routine that sets the beats of its own clock inside its wake-up is
+     re-scheduled from the beat it was AWAKEN at in both modes (ClockTask._wakeup: beats computed before the call;
+     TempoClock._run: self._beats + delta). *)
+  Definition tc_set_beats (t : tclock) (T v : Q) : tclock :=
+    mkT (t_tempo t) (Qred (1 / t_tempo t)) (Qred T) (Qred v).
+  Definition x_setbeats (st : xstate) (rid k : nat) (T : Q) (i : nat) (v : Q) : xstate * bool :=
+    let n := x_n st in
+    match nth_error (n_tcs n) i with
+    | None => (st, false)
+    | Some t =>
+        let n1 := set_tcs n (set_nth (n_tcs n) i (tc_set_beats t T v)) in
+        let n2 := match rt with None => retime n1 i | Some _ => n1 end in
+        (set_n st (add_log n2 (EvTempo (Some (rid, k)) (1000 + i) v true)), true)
+    end.
+
   (* rout.rand_seed = s : a new generator object *)
   Definition x_seed (st : xstate) (rid : nat) (s : Z) : xstate * bool :=
     let g := length (x_gens st) in
@@ -222,6 +240,7 @@ Section Exec.
     | XPlay b c :: rest => continue (x_play st rid k T b c) rest
     | XFork b :: rest => continue (x_play st rid k T b cclk) rest
     | XSetTempo i v :: rest => continue (x_tempo st rid k T i v) rest
+    | XSetBeats i v :: rest => continue (x_setbeats st rid k T i v) rest
     | XSeed s :: rest => continue (x_seed st rid s) rest
     | XDraw req :: rest => continue (x_draw st rid k req) rest
     | XWait c :: rest =>
